@@ -157,8 +157,18 @@ class CallGraph:
                     r = prog.resolve_expr_symbol(f.module, f.parent, d.func)
                     if r and r[0] == "func" and r[1] == "fcp.verifier.register":
                         self.registered.append((f, d))
+        # direct registrations: <verifier>.register(<function>, <category>) outside the decorator
+        self.registered_direct: List[Tuple[FuncInfo, CallSite]] = []
+        for sites in self.sites.values():
+            for cs in sites:
+                if "fcp.verifier.Verifier.register" in cs.callees and not cs.caller.qual.startswith("fcp.verifier.register"):
+                    g = self.function_value(cs.caller, cs.node.args[0]) if cs.node.args else None
+                    if g is not None:
+                        self.registered_direct.append((g, cs))
         if "fcp.verifier.Verifier.run_checks" in prog.functions:
             for f, _ in self.registered:
+                self._add_edge("fcp.verifier.Verifier.run_checks", f.qual)
+            for f, _ in self.registered_direct:
                 self._add_edge("fcp.verifier.Verifier.run_checks", f.qual)
         # Transformer.transform -> every callback of Transformer subclasses
         self.transformer_callbacks: Dict[str, List[FuncInfo]] = {}
@@ -166,6 +176,27 @@ class CallGraph:
             if any(b.split(".")[-1] == "Transformer" for b in prog.ext_bases(ci)):
                 cbs = [m for n, m in ci.methods.items() if not n.startswith("_")]
                 self.transformer_callbacks[ci.qual] = cbs
+
+    def function_value(self, f: FuncInfo, e: ast.AST) -> Optional[FuncInfo]:
+        """the repository function an expression denotes: a (local) function name, or a method named through self / cls / the class"""
+        prog = self.prog
+        if isinstance(e, ast.Name):
+            r = prog.resolve_expr_symbol(f.module, f, e)
+            if r and r[0] in ("func", "localfunc") and r[1] in prog.functions:
+                return prog.functions[r[1]]
+            q = "%s.<locals>.%s" % (f.qual, e.id)
+            return prog.functions.get(q)
+        if isinstance(e, ast.Attribute) and isinstance(e.value, ast.Name):
+            ci = None
+            if e.value.id in ("self", "cls") and f.cls is not None:
+                ci = f.cls
+            else:
+                r = prog.resolve_expr_symbol(f.module, f, e.value)
+                if r and r[0] == "class":
+                    ci = prog.classes.get(r[1])
+            if ci is not None:
+                return prog.find_method(ci, e.attr)
+        return None
 
     # ---------------------------------------------------------------- queries
     def reachable(self, roots: List[str], stop: Set[str] = frozenset(), extra: Dict[str, List[str]] = None) -> Dict[str, Optional[str]]:
